@@ -173,10 +173,12 @@ PROPS = {
                         [("GcpVerif.Proofs.Monitor", "GcpVerif.Monitor." + n) for n in ["blocked_means_told", "progress", "report_is_current", "reread_misses_update", "split_read_undoes_sync", "sync_read_missed_update", "monitor_loop_shape", "monitor_reads_state_under_lock", "status_update_wakes_monitors", "status_update_in_priority_order", "sync_tells_current"]],
             "leanchecker": ["GcpVerif.Proofs.GME", "GcpVerif.Proofs.GME3", "GcpVerif.Proofs.Monitor"], "trusted_base": GME_TB,
             "assumptions": ["'within bounded time' is observed only through the monitor's notification being delivered by the harness"]},
-    "C16": {"harnesses": ["gme"], "lake_targets": ["GcpVerif"],
+    "C16": {"harnesses": ["gme", "me"], "lake_targets": ["GcpVerif"],
             "theorems": gme_thms(["failed_update_is_identity", "invalid_options_rejected", "dial_failure_rejected", "close_releases_all", "close_leaves_timers", "rpc_routes_current"]) +
-                        [("GcpVerif.Proofs.GME2", "GcpVerif.GME.rpc_total"), ("GcpVerif.Proofs.GME2", "GcpVerif.GME.reach_g")],
-            "leanchecker": ["GcpVerif.Proofs.GME", "GcpVerif.Proofs.GME2"], "trusted_base": GME_TB, "assumptions": []},
+                        [("GcpVerif.Proofs.GME2", "GcpVerif.GME.rpc_total"), ("GcpVerif.Proofs.GME2", "GcpVerif.GME.reach_g"),
+                         ("GcpVerif.Proofs.ME", "GcpVerif.ME.c13_mem_holds"), ("GcpVerif.Proofs.ME", "GcpVerif.ME.reach_inv")],
+            "leanchecker": ["GcpVerif.Proofs.GME", "GcpVerif.Proofs.GME2"], "trusted_base": GME_TB,
+            "assumptions": ["rpc_total rests on the MultiEndpoint invariant 'Current() names an endpoint of the list' (ME.reach_inv): the MultiEndpoint harness with its virtual clock is part of this check, its membership monitor is reported for C16 as current_names_a_listed_endpoint"]},
     "C12": {"harnesses": ["st"], "lake_targets": ["GcpVerif"],
             "theorems": [("GcpVerif.Proofs.Stream", "GcpVerif.Stream." + n) for n in
                          ["run_inv", "create_at_most_once", "recv_progress", "delegation_after_creation",
